@@ -1,4 +1,4 @@
-(** C09 — non-vacuity examples and the refutation of the option plumbing. *)
+(** C09 — non-vacuity examples. *)
 From V Require Import Base.Util Gql.Ast Writer.Wop Ts.TsType Ts.TsDen
   C10.Model C10.Spec C10.NameProofs C10.Examples C09.Model C09.Spec C09.Proofs.
 
@@ -46,10 +46,10 @@ Example ex_strict :
   ex_admit false v = Some false /\ coercible ex_opts ex_doc ex_vds v = true.
 Proof. vm_compute. split; reflexivity. Qed.
 
-(** ** the option as configured does not reach the Variables type *)
-Lemma config_plumbing_refuted :
-  oo_allow (oopts_from_config false) = true /\
+(** ** the option as configured reaches the Variables type (since /repo 8fa8876) *)
+Example ex_config_off_rejects_omission :
   let vds := [mkVarDef pos0 (s "b") pos0 (ex_ty "E") None []] in
-  has_type_b (vars_env ex_ms) 40 (variables_type (oopts_from_config false) vds) (VObj []) = Some true
-  /\ explicit_c ex_opts ex_doc false vds (VObj []) = false.
+  has_type_b (vars_env ex_ms) 40 (variables_type (oopts_from_config (Some false)) vds) (VObj []) = Some false
+  /\ has_type_b (vars_env ex_ms) 40 (variables_type (oopts_from_config (Some true)) vds) (VObj []) = Some true
+  /\ has_type_b (vars_env ex_ms) 40 (variables_type (oopts_from_config None) vds) (VObj []) = Some true.
 Proof. vm_compute. repeat split; reflexivity. Qed.
